@@ -71,6 +71,12 @@ def adversarial(rng):
                     "seed": rng.randrange(10 ** 6),
                     "forced_neighbours": [("remove#%d" % i0, [list(r) for j, r in enumerate(big) if j != i0]),
                                           ("add(0, 0, 0, 0)", [list(r) for r in big] + [[0, 0, 0, 0]])]})
+    # MWEM with more rounds than workload marginals
+    for noise in ("gaussian", "laplace"):
+        p = {"epsilon": 1.0, "delta": 0.0 if noise == "laplace" else 1e-6, "noise": noise, "bounded": False, "rounds": 3, "alpha": 0.9,
+             "workload": [("a", "b"), ("b", "c")]}
+        out.append({"mech": "MWEM", "params": p, "attrs": ["a", "b", "c"], "sizes": [2, 2, 2], "records": [list(r) for r in recs],
+                    "seed": rng.randrange(10 ** 6), "all_neighbours": True})
     # AdaGrid with a target attribute (step 1 then measures the whole downward closure) and with explicit budget splits
     for targets, split in ((["c"], None), (["c"], [1, 2, 1]), ([], [1, 1, 2]), (["b"], [2, 3, 5])):
         p = {"epsilon": 1.0, "delta": 1e-6, "targets": targets, "split_strategy": split, "threshold": 5.0}
